@@ -6,7 +6,7 @@ from lib import vlib
 from checks.common import conclude
 from checks import C10 as P
 
-MODULE = "Nice.Props.C08"
+MODULE = "Nice.Props.C08Stream"      # imports Nice.Props.C08 (component lemmas) and adds the end-to-end theorems
 THEOREMS = [f"Nice.Props.C08.{t}" for t in (
     "C08_fifo_write_appends",
     "C08_fifo_read_takes",
@@ -14,8 +14,21 @@ THEOREMS = [f"Nice.Props.C08.{t}" for t in (
     "C08_sender_payload_from_ring",
     "C08_receiver_store_keeps_committed_partial",
     "C08_out_of_order_store_keeps_committed",
-    "C08_eos_requires_in_sequence_fin")]
+    "C08_eos_requires_in_sequence_fin",
+    # end-to-end over the concrete model with a ghost stream (Nice/Proofs/PTcpStream*.lean)
+    "C08_recv_stream_prefix_partial", "C08_eos_after_all_data_partial", "C08_recv_eos_means_all_read_partial",
+    "C08_handshake_establishes_invariant", "C08_recv_stream_prefix_from_init_partial",
+    "C08_sender_segments_from_stream", "C08_send_ring_is_stream_suffix", "C08_committed_bytes_are_stream")]
 TRUSTED = P.TRUSTED[:3] + [
+    "end-to-end theorems (N-recv, E, N-send) are proved about the hand-written, differential-tested model Nice/Model/PTcp.lean: "
+    "for ANY sequence of model operations whose packets are slices of the peer's stream W (any order, duplicates, loss), what "
+    "recv has returned is a prefix of W, a FIN-received state means all of W is committed, and every segment a socket emits "
+    "is a slice of the bytes its send() accepted. They are `_partial`: streams < 2^31 bytes, the receive ring never smaller than "
+    "the 7-byte connect message, and from Sock.init only under GoodRun (rcv_nxt = 0 implies LISTEN/SYN-SENT/CLOSED): without "
+    "it there is a kernel-checked counterexample, reproduced on the C code (a connect reply whose timestamp echo lies in the "
+    "future leaves an ESTABLISHED socket with rcv_nxt = 0; data stored then is shifted by the later connect message). That needs "
+    "a misbehaving peer or a clock running backwards, which is outside C08's quantifier; recorded in DESIGN.md as an observation. "
+    "The two-socket composition (sender CTL/FIN placement) and liveness are not proved",
     "stream oracle: bytes accepted by send() (its return value) vs bytes returned by recv(), evaluated on the real code",
     "sequence numbers do not wrap within a connection (streams < 2^31 bytes; ISN is 0 in this code)",
 ]
